@@ -126,6 +126,8 @@ type Machine struct {
 	ModelHits   int
 	pcSet       map[*smt.Term]bool
 	usedUF      bool
+	muHeld      map[string]bool // write-held mutexes of this path (blocked.go)
+	blockCatch  int             // > 0 inside rt.Blocked(f)
 	sec         *secretState // rt.Secret: secret variables of this path (secret.go)
 	SecretSinks int          // text-sink operands examined on this path while a secret was registered
 	SecretFlows int          // of those, operands that mention a secret (each one a solver obligation)
@@ -208,6 +210,8 @@ func (m *Machine) RunPath(entry *ssa.Function, prefix []int64, pushAlt func([]in
 	m.pcSet = map[*smt.Term]bool{}
 	m.usedUF = false
 	m.sec = nil
+	m.muHeld = map[string]bool{}
+	m.blockCatch = 0
 	m.SecretSinks, m.SecretFlows = 0, 0
 	m.decCache = nil
 	m.oncePath = map[*Object]bool{}
